@@ -167,6 +167,16 @@ def handled_and_caught_families(ctx):
                     scn = {"machines": {"m": {"asl": asl}}, "funcs": dict(c06.FUNCS), "starts": [{"machine": "m", "name": "e0", "input": data}]}
                     ctx.count("family:caught-inside-a-branch")
                     _sched.run_schedules(ctx, scn, dict(family="caught-inside-a-branch", kind=kind), judge, n_random, ["c02ci", i], record_every=1)
+    # (a') one unhandled failure while a sibling Task sits in its own retry interval: it is invoked again after the end and fails again
+    for n in (2, 3):
+        for variant in range(ctx.pick(2, 5)):
+            i += 1
+            if not ctx.mine(i):
+                continue
+            rng = ctx.rng("retrying-sibling", n, variant)
+            scn, meta = c06.make(rng, "Parallel", n, {0}, "none", sib_kind="retrying", fail_delay=1)
+            ctx.count("family:unhandled-failure-with-retrying-sibling")
+            _sched.run_schedules(ctx, scn, dict(family="unhandled-failure-with-retrying-sibling", kind="Parallel"), judge, n_random, ["c02rs", i], record_every=1)
     # (b)
     hook = lambda run: setattr(run, "watch", c06.FailureWatch(run))
     for n in (2, 3):
